@@ -37,6 +37,7 @@ import (
 	"github.com/evanw/esbuild/internal/resolver"
 	"github.com/evanw/esbuild/internal/runtime"
 	"github.com/evanw/esbuild/internal/sourcemap"
+	"github.com/evanw/esbuild/internal/verifhook"
 	"github.com/evanw/esbuild/internal/xxhash"
 )
 
@@ -122,6 +123,7 @@ type tlaCheck struct {
 }
 
 func parseFile(args parseArgs) {
+	verifhook.Yield("parse")
 	pathForIdentifierName := args.keyPath.Text
 
 	// Identifier name generation may use the name of the parent folder if the
@@ -3092,6 +3094,7 @@ func (b *Bundle) Compile(log logger.Log, timer *helpers.Timer, mangleCache map[s
 		for i, entryPoint := range b.entryPoints {
 			waitGroup.Add(1)
 			go func(i int, entryPoint graph.EntryPoint) {
+				verifhook.Yield("link")
 				entryPoints := []graph.EntryPoint{entryPoint}
 				forked := timer.Fork()
 
